@@ -160,10 +160,10 @@ def theorems_of_record(prop: str):
     return [f"{prop}.{m}" for m in re.findall(r"^\s*theorem\s+([A-Za-z_][A-Za-z0-9_'.]*)", src, re.M)]
 
 
-def _imports_closure(prop: str):
+def _imports_closure(prop: str, root: str | None = None):
     """project-local modules transitively imported by Props/<prop>.lean (for the forbidden-token grep)."""
     seen = set()
-    stack = [f"Props.{prop}"]
+    stack = [root or f"Props.{prop}"]
     while stack:
         m = stack.pop()
         if m in seen:
@@ -199,8 +199,18 @@ def lean_build(prop: str, clean: bool = False, leanchecker: bool = False) -> Bui
     lock = open(os.path.join(LEAN, ".build.lock"), "w")
     fcntl.flock(lock, fcntl.LOCK_EX)
     try:
+        # regenerate the constants/tables this property's proofs and driver import (each extractor under a deadline)
+        needed = set()
+        for m in _imports_closure(prop) + _imports_closure(prop, root=f"Driver.Main{prop}"):
+            if m.startswith("Generated.") and m != "Generated.Consts":
+                needed.add(m.split(".", 1)[1])
+        gen_dir = os.path.join(LEAN, "Generated")
+        missing = {os.path.basename(x)[8:-3] for x in __import__("glob").glob(os.path.join(VERIF, "harness", "extract_C*.py"))
+                   if not os.path.exists(os.path.join(gen_dir, os.path.basename(x)[8:-3] + ".lean"))}
         try:
-            extract.write()
+            for mod_name, problem in extract.write(only=needed | missing):
+                if mod_name == "Generated.Consts" or mod_name.split(".", 1)[1] in needed:
+                    r.bad.append((mod_name, problem))
         except BaseException as e:  # extraction itself broke: obligations cannot be rebuilt
             r.bad.append(("Generated.Consts", f"extraction failed: {e!r}"))
         r.theorems = write_audit(prop)
@@ -313,9 +323,16 @@ def load_known():
     return json.load(open(path))
 
 
+class Stalled(BaseException):
+    """raised by the watchdog when the correspondence run makes no progress (no case, oracle or driver batch) for
+    VERIF_STALL seconds: some call into the implementation does not return"""
+
+
 class Ctx:
     def __init__(self, prop: str, tier: str, seed: int):
         self.prop, self.tier, self.seed = prop, tier, seed
+        self.tick = time.time()
+        self.stalled = None
         self.rng = Rng(seed ^ (int(hashlib.sha256(prop.encode()).hexdigest()[:8], 16)))
         self.hist = {}
         self.distinct = set()
@@ -339,10 +356,54 @@ class Ctx:
         return quick
 
     def count(self, key: str, k: int = 1):
+        self.tick = time.time()
         self.hist[key] = self.hist.get(key, 0) + k
+
+    # -- watchdog ------------------------------------------------------------------------------
+    def watchdog_start(self):
+        import signal
+
+        limit = float(os.environ.get("VERIF_STALL", "1200" if self.tier == "thorough" else "600"))
+
+        def on_alarm(signum, frame):
+            if self.stalled is not None or time.time() - self.tick > limit:
+                if self.stalled is None:
+                    self.stalled = {"seconds_without_progress": round(time.time() - self.tick, 1),
+                                    "where": "".join(traceback.format_stack(frame)[-12:])[-3000:],
+                                    "last_case": getattr(self, "last_sample", None)}
+                raise Stalled()
+
+        # SIGALRM/ITIMER_REAL belong to the property harnesses (per-call hang guards); the watchdog is a thread
+        # that pokes the main thread with SIGUSR2
+        import threading
+
+        self._old_alarm = signal.signal(signal.SIGUSR2, on_alarm)
+        self._wd_stop = threading.Event()
+
+        def poke():
+            while not self._wd_stop.wait(10.0):
+                if self.stalled is not None or time.time() - self.tick > limit:
+                    try:
+                        os.kill(os.getpid(), signal.SIGUSR2)
+                    except OSError:
+                        return
+
+        self._wd = threading.Thread(target=poke, daemon=True)
+        self._wd.start()
+
+    def watchdog_stop(self):
+        import signal
+
+        if getattr(self, "_wd_stop", None) is not None:
+            self._wd_stop.set()
+            self._wd_stop = None
+            signal.signal(signal.SIGUSR2, signal.SIG_IGN)
 
     def case(self, key, nontrivial: bool = True, sample=None):
         """register one generated case; `key` identifies it for distinctness"""
+        if self.stalled is not None:
+            raise Stalled()
+        self.tick = time.time()
         self.evaluations += 1
         self.last_sample = sample if sample is not None else repr(key)[:2000]
         if nontrivial:
@@ -351,6 +412,7 @@ class Ctx:
             self.samples.append(sample)
 
     def corr(self, op: str, impl: str, case=None):
+        self.tick = time.time()
         self.queue.append((op, impl, case))
         if len(self.queue) >= 50000:
             self.flush()
@@ -362,7 +424,9 @@ class Ctx:
         if not self.driver_ok:
             self.model_only_skipped += len(q)
             return
+        self.tick = time.time()
         outs = run_driver(self.prop, [x[0] for x in q])
+        self.tick = time.time()
         for (op, impl, case), model in zip(q, outs):
             self.corr_count += 1
             if impl != model:
@@ -426,9 +490,17 @@ def run_check(mod, prop: str, tier: str, seed: int) -> int:
     ctx.driver_ok = ctx.build.driver_ok
     # C + D
     corr_crash = None
+    ctx.tick = time.time()
+    ctx.watchdog_start()
     try:
         mod.run(ctx)
         ctx.flush()
+    except Stalled:
+        ctx.watchdog_stop()
+        print(f"STALL: {json.dumps(ctx.stalled, default=str)[:1500]}")
+        corr_crash = {"exception": "Stalled: a call into the implementation did not return (no progress for "
+                                   f"{(ctx.stalled or {}).get('seconds_without_progress')} s)",
+                      "traceback": (ctx.stalled or {}).get("where"), "last_case": (ctx.stalled or {}).get("last_case")}
     except Exception as e:
         traceback.print_exc()
         if isinstance(e, (OSError, MemoryError, subprocess.SubprocessError, TimeoutError)):
@@ -439,6 +511,8 @@ def run_check(mod, prop: str, tier: str, seed: int) -> int:
             # tie does not expect (a value of another type or size, an exception through an unguarded call)
             corr_crash = {"exception": repr(e)[:500], "traceback": traceback.format_exc()[-3000:],
                           "last_case": getattr(ctx, "last_sample", None)}
+    finally:
+        ctx.watchdog_stop()
     # E: search when a proof obligation or the correspondence broke and no failing input is known yet
     broken = (not ctx.build.ok) or bool(ctx.mismatches) or corr_crash is not None
     new_fail = [f for f in ctx.failures if f.signature not in known_sigs]
